@@ -135,10 +135,13 @@ WeightedPrices(infos) ==
 \* MedianValidatorPriceInfos -> [ok, price]; ok = FALSE is ErrInvalidWeightedPrices
 Median(infos) == MedianWeighted(WeightedPrices(infos))
 
-\* the status rule of Keeper.CalculatePrice, on the three power sums and the power quorum
+\* the status rule of Keeper.CalculatePrice, on the three power sums and the power quorum.  (The `total = 0` disjunct
+\* is the fix "feeds price of a feed without any reporting power is NOT_READY, not an end-block error": before it a
+\* power quorum of 0 - price_quorum "0", or nothing bonded - let an empty input through to the median, whose error
+\* return made the end-blocker fail.  With it the error return below is unreachable: NoPriceError, checked by MC.)
 PriceStatus(total, avail, unsupp, quorum) ==
     IF unsupp * 2 > total THEN "UNKNOWN_SIGNAL_ID"
-    ELSE IF total < quorum \/ avail * 2 < total THEN "NOT_READY"
+    ELSE IF total = 0 \/ total < quorum \/ avail * 2 < total THEN "NOT_READY"
     ELSE "AVAILABLE"
 
 \* Keeper.CalculatePrice -> [status, price]; "ERROR" = the error return ("should not happen")
@@ -203,19 +206,20 @@ PureOrderOf(infos) ==
         /\ Powers(Permute(infos, p)) = P
         /\ tf => Median(Permute(infos, p)) = m
 
-\* AVAILABLE / UNKNOWN_SIGNAL_ID / NOT_READY exactly by the rule; the error return needs quorum 0 and no input
+\* AVAILABLE / UNKNOWN_SIGNAL_ID / NOT_READY exactly by the rule (for a quorum >= 1 the `total > 0` conjunct is implied
+\* by `total >= q`); the error return of CalculatePrice is unreachable
 PureStatusOf(infos) ==
     LET P == Powers(infos)  m == Median(infos) IN
     /\ P.total = P.avail + P.unavail + P.unsupp
     /\ \A q \in 0..(P.total + 1) :
         LET st == PriceStatus(P.total, P.avail, P.unsupp, q) IN
         /\ (st = "UNKNOWN_SIGNAL_ID") <=> (2 * P.unsupp > P.total)
-        /\ (st = "AVAILABLE") <=> (P.total >= q /\ 2 * P.avail >= P.total /\ ~(2 * P.unsupp > P.total))
+        /\ (st = "AVAILABLE") <=> (P.total > 0 /\ P.total >= q /\ 2 * P.avail >= P.total /\ ~(2 * P.unsupp > P.total))
         /\ (st \notin {"UNKNOWN_SIGNAL_ID", "AVAILABLE"}) <=> (st = "NOT_READY")
-        /\ (st = "AVAILABLE" /\ ~m.ok) <=> (infos = <<>> /\ q = 0)
+        /\ (st = "AVAILABLE") => m.ok
     /\ \A q \in {0, P.total, P.total + 1} :
         LET st == PriceStatus(P.total, P.avail, P.unsupp, q)  r == CalcPrice(infos, q) IN
-        /\ r.status = (IF st = "AVAILABLE" /\ ~m.ok THEN "ERROR" ELSE st)
+        /\ r.status = st
         /\ r.price = (IF r.status = "AVAILABLE" THEN m.price ELSE 0)
 
 \* independent (declarative) reading of the two loops, must agree with the transcription:
@@ -399,7 +403,8 @@ EndBlockCore(dt, nf, ord, failsOf(_)) ==
     /\ IsOrder(ord)
     /\ nf \in [Sig -> Nat]
     /\ IF failsOf(\E s \in cur1 : res(s).status = "ERROR")
-       THEN \* CalculatePrices returns an error: the block cannot be produced, nothing is committed
+       THEN \* CalculatePrices returns an error: the block cannot be produced, nothing is committed (unreachable since
+            \* the fix described at PriceStatus; kept because the code keeps the error return)
             /\ out' = "err"
             /\ UNCHANGED <<h, now, params, feeds, updT, updH, vprice, price, vstat, deactEv, bonded, jailed, power>>
        ELSE /\ feeds' = feeds1 /\ updT' = uT /\ updH' = uH
@@ -450,9 +455,8 @@ InvStatus ==
           /\ (vprice[v][s].st # "none" => vprice[v][s].ts <= now /\ vprice[v][s].bh <= h)
     /\ \A a \in Addr : (vstat[a].active => vstat[a].since # Never) /\ vstat[a].since <= now /\ deactEv[a] >= 0
 
-\* the end-blocker can fail only when the power quorum is 0: price_quorum = 0 (lead of C02; such inputs are tagged by
-\* the driver) or nothing bonded at all
-ErrOnlyQuorum0 == out = "err" => BondedTotal * params.qn = 0
+\* the end-blocker never fails: CalculatePrice's error return is unreachable (see PriceStatus)
+NoEndBlockError == out # "err"
 
 Inv == InvPrice /\ InvStatus
 
@@ -479,7 +483,7 @@ PriceRuleA ==
                     /\ p.status \in {"AVAILABLE", "NOT_READY", "UNKNOWN_SIGNAL_ID"}
                     /\ (p.status = "UNKNOWN_SIGNAL_ID") <=> (2 * unsup > total)
                     /\ (p.status = "AVAILABLE") <=>
-                          (100 * total >= BondedTotal * params.qn /\ 2 * avail >= total /\ ~(2 * unsup > total))
+                          (total > 0 /\ 100 * total >= BondedTotal * params.qn /\ 2 * avail >= total /\ ~(2 * unsup > total))
                     /\ (p.status = "AVAILABLE") =>
                           /\ p.price \in ps
                           /\ (\E lo \in ps : lo <= p.price) /\ (\E hi \in ps : hi >= p.price)
